@@ -162,6 +162,26 @@ func scenarioC18(c *hlib.RunCtx) *hlib.Violation {
 		}
 		switch t.Draw(4) {
 		case 0, 1: // write / overwrite
+			if len(model) > 0 && t.Bool(1, 6) {
+				// an object written by copying another one (the worker copies reports
+				// between buckets): from then on the two are objects of their own, and
+				// what is written to either later is not read from the other
+				keys := sortedKeys(model)
+				src := keys[t.Draw(len(keys))]
+				dst := genName()
+				if dst == src || isPrefixConflict(dst) {
+					continue
+				}
+				if err := Copy(ctx, bh.Object(dst), bh.Object(src)); err != nil {
+					fail("write-failed", "copying %q to %q: %v", src, dst, err)
+					break
+				}
+				model[dst] = model[src]
+				ops = append(ops, "copy "+src+" -> "+dst)
+				s.Logf("op", "copy %s -> %s", src, dst)
+				s.Probe("copy")
+				continue
+			}
 			name := genName1()
 			if isPrefixConflict(name) {
 				continue // a file system cannot hold an object whose name is a path prefix of another
